@@ -2,7 +2,7 @@
    parentheses denotes the same tree as its fully parenthesised form.
    Spec: Spec/PrecGrammar.v.  Proofs: Proofs/Syntax.v (parser), Proofs/SyntaxLex.v (lexer). *)
 From JQ Require Import Base.Bytes Syntax.Token Syntax.Lexer Syntax.Ast Syntax.Parser Gen.Generated.
-From JQ Require Import Spec.PrecGrammar Proofs.SyntaxLex Proofs.Syntax.
+From JQ Require Import Spec.PrecGrammar Proofs.SyntaxLex Proofs.Syntax Proofs.SyntaxFuel.
 Open Scope nat_scope.
 
 (* ---- 1. the generated rule table is the documented table.
@@ -136,6 +136,25 @@ Example parse_print_ex :
   end.
 Proof. vm_compute. repeat split. Qed.
 
+(* ---- 5b. the same under any horizontal layout of the tokens (gaps of spaces, tabs, CRs;
+   [items] pairs each token with the gap in front of it, [trail] is trailing space) *)
+Theorem parse_print_layout : forall force e items trail, wf_sexpr e = true ->
+  map snd items = print force 1 e -> gaps_ok true items = true -> forallb is_hws trail = true ->
+  exists e' st', parse_expression_src (lay items trail) = POk e' st' /\
+                 strip (lay items trail) e' = Some (desugar e).
+Proof. exact Syntax.parse_print_layout. Qed.
+Print Assumptions parse_print_layout.
+
+Example parse_print_layout_ex :
+  let items := [([], KNum (bs "8")); ([9%N], KFix TMinus); ([32%N; 32%N], KNum (bs "3"));
+                ([32%N], KFix TMinus); ([13%N], KNum (bs "2"))] in
+  map snd items = render ex_sub /\ gaps_ok true items = true /\
+  match parse_expression_src (lay items [32%N]) with
+  | POk e' _ => strip (lay items [32%N]) e' = Some ex_sub
+  | _ => False
+  end.
+Proof. vm_compute. repeat split. Qed.
+
 (* ---- 6. compound assignment is assignment of the binary operation *)
 Theorem compound_desugar : forall b l r, wf_sexpr (SCompound b l r) = true ->
   exists e' st', parse_expression_src (text_of (render (SCompound b l r))) = POk e' st' /\
@@ -154,3 +173,26 @@ Example compound_desugar_ex :
   | _ => False
   end.
 Proof. vm_compute. repeat split. Qed.
+
+(* ---- 7. fuel: [parse_fuel src] is only a bound.  Any fuel with which a parser function
+   answers at all (POk, PErr or PPanic) gives the answer every larger fuel gives.
+   (The theorems above are stated with the model's own fuel and do not depend on this.) *)
+
+Theorem fuel_mono : forall n m src r, n <= m ->
+  parse_expression_fuel n src = r -> r <> PFuel -> parse_expression_fuel m src = r.
+Proof. exact SyntaxFuel.fuel_mono_expr. Qed.
+Print Assumptions fuel_mono.
+
+Theorem fuel_mono_program : forall n m src r, n <= m ->
+  parse_program_fuel n src = r -> r <> PFuel -> parse_program_fuel m src = r.
+Proof. exact SyntaxFuel.fuel_mono_program. Qed.
+Print Assumptions fuel_mono_program.
+
+Example fuel_mono_ex :
+  (* 5 units are not enough for 8 - 3 - 2, 6 are, and then 280 give the same *)
+  parse_expression_fuel 3 (bs "8 - 3 - 2") = PFuel /\
+  parse_expression_fuel 6 (bs "8 - 3 - 2") <> PFuel /\
+  parse_expression_fuel 6 (bs "8 - 3 - 2") = parse_expression_src (bs "8 - 3 - 2") /\
+  parse_program_fuel 8 (bs "{ print 1 + }") = PErr 12 /\
+  parse_program_fuel 8 (bs "{ print 1 + }") = parse_program (bs "{ print 1 + }").
+Proof. vm_compute. repeat split. discriminate. Qed.
